@@ -306,6 +306,23 @@ class ClassParser(BaseParser):
 
         return setter
 
+    def make_property_setter(self, field: ParserField, fset: Callable):
+        def setter(_obj_self: object, value):
+            if self.options.immutable or field.immutable:
+                raise exc.UpdateError(
+                    f"{self.name}: "
+                    f"Attempt to set immutable attribute: [{repr(field.attname)}]"
+                )
+            context = self.options.make_context(_obj_self.__class__, force_error=True)
+            value = field.parse_value(value, context=context)
+            if unprovided(value):
+                # an invalid value under the 'exclude' policy: nothing is assigned
+                return
+            fset(_obj_self, value)
+
+        setter.__name__ = field.attname
+        return setter
+
     def make_deleter(self, field: ParserField, post_delattr=None):
         def deleter(_obj_self: object):
             if self.options.immutable or field.immutable:
@@ -353,6 +370,16 @@ class ClassParser(BaseParser):
 
         for key, field in self.fields.items():
             if field.property:
+                if not setter and field.property.fset:
+                    # the value assigned to a property is parsed like any other assignment
+                    # before the user's setter gets it (initialization calls the original setter itself)
+                    prop = field.property
+                    setattr(self.obj, field.attname, property(
+                        fget=prop.fget,
+                        fset=self.make_property_setter(field, prop.fset),
+                        fdel=prop.fdel,
+                        doc=prop.__doc__,
+                    ))
                 continue
 
             if getter:
